@@ -63,6 +63,12 @@ fn dispatch(prop: &str, tier: &str, seed: u64, rest: &[String]) -> i32 {
             vh::c07::run(&mut rep, tier);
             rep.finish()
         }
+        "SCHED-WORKER" => vh::schedprops::worker_main(&tier.to_uppercase(), &rest[0], rest[1].parse().unwrap_or(1), rest[2].parse().unwrap_or(0), rest[3].parse().unwrap_or(1)),
+        "C15" | "C16" => {
+            let mut rep = Report::new(prop, ev_tier, seed);
+            vh::schedprops::run(prop, &mut rep, tier);
+            rep.finish()
+        }
         "C20" => {
             let mut rep = Report::new("C20", ev_tier, seed);
             vh::c20::run(&mut rep, tier);
